@@ -149,8 +149,14 @@ func refName(c *Case, in *Inst) nameRef {
 			r.cands = append(r.cands, s)
 		}
 	}
+	var full []string
 	for _, st := range stemsOf {
-		s := ns + st
+		full = append(full, ns+st)
+		if st == "" && ns != "" {
+			full = append(full, strings.TrimSuffix(ns, "_")) // nothing but the namespace is left
+		}
+	}
+	for _, s := range full {
 		switch {
 		case r.unitWord == "":
 			add(s)
